@@ -15,12 +15,12 @@ import (
 
 func TestC11(t *testing.T) {
 	rapid.Check(t, func(t *rapid.T) {
-		sch := genSchema(t, SchemaCfg{Key: 0, Merges: true, MinCols: 2, MaxCols: 6, NoLenMerge: KFActive("f15-difflen-merge-reorder")})
+		sch := genSchema(t, SchemaCfg{Key: 0, Merges: true, MinCols: 2, MaxCols: 6})
 		mc := NewMachine("C11", sch, column.Options{})
 		defer mc.Close()
 		defer mc.Guard(t)
 		cfg := TxnCfg{Prop: "C11", MaxSteps: 8, Rollback: true, FailInsert: true, Deletes: true, Inserts: true, Merges: true, OwnUpdates: true, Direct: true,
-			NoStoreOnDel: KFActive("f11-store-and-delete-same-txn")}
+			NoStoreOnDel: KFActive("f11-store-and-delete-same-txn"), NoOpAfterLenMerge: KFActive("f15-difflen-merge-reorder")}
 		insertHeavy := cfg
 		insertHeavy.Deletes = false
 		staleCandidate := false
